@@ -50,6 +50,8 @@ static int send_buffer(struct buffered_socket *bs)
 			if (unlikely((err != resource_unavailable_try_again) &&
 						 (err != operation_would_block))) {
 				log_err("unexpected %s error: %s!", "write", get_socket_error_msg(err));
+				/* Keep the queue consistent, not every caller closes the connection. */
+				memmove(bs->write_buffer, write_buffer_ptr, bs->to_write);
 				return -1;
 			} else {
 				memmove(bs->write_buffer, write_buffer_ptr, bs->to_write);
